@@ -116,12 +116,42 @@ def as_sel(x):
     raise EngineLimit(f"coo_matrix triplet component of type {type(x).__name__}")
 
 
+def _coo_full(v, r, c, shape):
+    """sps.coo_matrix((v, (r, c)), shape) for three full 1-D arrays of one length n where the COLUMN index array is the base index
+    itself (c[k] == k, decided syntactically): column k holds exactly one stored entry, v[k] at row r[k]."""
+    if not (_same(v.n, r.n) and _same(v.n, c.n)):
+        raise EngineLimit("coo_matrix triplet arrays of different lengths")
+    if not z3.simplify(c._elem(I0)).eq(I0):
+        raise EngineLimit("coo_matrix: column indices are not the base index (duplicates cannot be excluded)")
+    if shape is None:
+        raise EngineLimit("coo_matrix without shape")
+    nr, nc = shape
+    ctx = sym.Ctx.current
+    k = ctx.int("k_coo")
+    inside = z3.Implies(z3.And(k.t >= 0, k.t < iterm(v.n)), z3.And(r._elem(k.t) >= 0, r._elem(k.t) < iterm(nr), k.t < iterm(nc)))
+    ctx.prove("requires of sps.coo_matrix: every stored (row, column) index lies inside the shape", SymBool(inside))
+    _used("sps.coo_matrix((v, (r, c)), shape) with c the base index 0..n-1: entry (i, j) = v[j] if 0 <= j < n and r[j] == i, else 0; "
+          ".tocsr()/.tocsc() keep the entries")
+    n = iterm(v.n)
+    rv, vv = r._elem, v._elem
+
+    def entry(i, j):
+        val = vv(j)
+        if val.sort() == z3.IntSort():
+            val = z3.ToReal(val)
+        return z3.If(z3.And(j >= 0, j < n, rv(j) == i), val, z3.RealVal(0))
+
+    return SymMat(nr, nc, entry, "coo")
+
+
 def m_coo_matrix(orig):
     def coo(arg1, shape=None, dtype=None, copy=False):
         if not (isinstance(arg1, tuple) and len(arg1) == 2 and isinstance(arg1[1], tuple)
-                and any(isinstance(x, (MaskedSel, IndexSet)) for x in (arg1[0],) + tuple(arg1[1]))):
+                and any(isinstance(x, (MaskedSel, IndexSet, SymArray)) for x in (arg1[0],) + tuple(arg1[1]))):
             return orig(arg1, shape=shape, dtype=dtype, copy=copy)
         v, (r, c) = arg1
+        if all(isinstance(x, SymArray) for x in (v, r, c)):
+            return _coo_full(v, r, c, shape)
         v, r, c = as_sel(v), as_sel(r), as_sel(c)
         m0 = z3.simplify(v.mask(I0))
         for s in (r, c):
